@@ -926,6 +926,12 @@ class Environment(Macro):
             if item.nodeType == Node.ELEMENT_NODE:
                 if item.macroMode == Macro.MODE_END and type(item) is type(self):
                     break
+                # An element that only lives in one kind of container (\item
+                # in a list) ends every other environment, e.g. a declaration
+                container = getattr(item, 'container', None)
+                if container is not None and not isinstance(self, container):
+                    tokens.push(item)
+                    break
                 item.parentNode = self
                 item.digest(tokens)
             # Stay within our context depth
